@@ -69,6 +69,11 @@ fn main() {
             Drive { params: &params, stats: &mut stats, known: &known }.run("c11.storm", 111, c11::storm_strategy(), n, |c, s| c11::eval(&rig, &st, c, s));
             (c11::RULE.into(), e2e_assumptions)
         }
+        "C10" => {
+            let n = params.share(if th { 4_000 } else { 64 });
+            Drive { params: &params, stats: &mut stats, known: &known }.run("c10.stress", 110, gpa_verif::props::c10s::strategy(), n, |c, s| gpa_verif::props::c10s::eval(&rig, c, s));
+            (gpa_verif::props::c10s::RULE.into(), e2e_assumptions)
+        }
         "C07" => {
             let n = params.share(if th { 30_000 } else { 1_000 });
             Drive { params: &params, stats: &mut stats, known: &known }.run("c07.single-use", 7, c07::strategy(), n, |c, s| c07::eval(&rig, c, s));
